@@ -1243,6 +1243,8 @@ class Manifest:
             source = self._manifest[target]
             if os.path.isabs(target):
                 raise experiment.model.errors.FlowIRManifestKeyIsAbsolutePath(target)
+            if os.path.normpath(target).split(os.path.sep, 1)[0] == os.path.pardir:
+                raise experiment.model.errors.FlowIRManifestKeyOutsideInstance(target)
             try:
                 _, method = source.rsplit(':', 1)
             except ValueError:
